@@ -5,6 +5,7 @@ frame monitor compares it with the state before the operation.
 -/
 import RSSched.Driver.SchedDump
 import RSSched.Spec.Frame
+import RSSched.Model.Ops
 namespace RSSched.Driver
 open RSSched Spec
 
@@ -46,6 +47,22 @@ def checkSched (c : Case) : VM Unit := do
       vdiff "C10" "state-dump-missing" opStr
       continue
     monitorSched nw s!"after [{opStr}] ({cls})" post
+    -- correspondence: the model's modification applied to the implementation's pre-state
+    match pre, parseSOp op with
+    | some p, some sop =>
+      let m := applyOp nw p.s sop
+      match m, cls with
+      | .ok r, "ok" =>
+        let fs := Schedule.diffFields r.sched post.s
+        if !fs.isEmpty then vdiff "C10,C09,C13" s!"model-{op.headD ""}-{fs.headD ""}" s!"[{opStr}] fields={fs}"
+      | m, cls => if modelClass m != cls then vdiff "C10,C13" s!"model-{op.headD ""}-class" s!"[{opStr}] impl={cls} model={modelClass m} {match m with | .error e => reprStr e | _ => ""}"
+    | none, some .init =>
+      match applyOp nw default .init with
+      | .ok r =>
+        let fs := Schedule.diffFields r.sched post.s
+        if !fs.isEmpty then vdiff "C10" s!"model-init-{fs.headD ""}" s!"fields={fs}"
+      | _ => pure ()
+    | _, _ => pure ()
     match pre, parseSOp op with
     | some p, some sop =>
       if cls == "ok" then
